@@ -99,7 +99,13 @@ def build(case):
         text, exp, spans = seeds.compose(lang, snippets, header=True, gap=1 + case.get("gap", 1) % 3)
         lines = text.split("\n")[:-1]
         marks = sorted({ln - 1 for _r, ln in exp} | {first - 1 for fam, first, _l in spans if fam == "srploc"})
-        states.append(ed.FileState(name="mod" + seeds.EXT[lang], lang=lang, lines=lines, hdr=len(seeds.HEADERS[lang]), locals=renameable, marks=marks, **common))
+        fname, hdr = "mod" + seeds.EXT[lang], len(seeds.HEADERS[lang])
+        if lay.get("script") and lang == "py":
+            # an extensionless script recognised by its python shebang (line 1 belongs to the header block)
+            fname, hdr = "tool", hdr + 1
+            lines = ["#!/usr/bin/env python3"] + lines
+            marks = [m + 1 for m in marks]
+        states.append(ed.FileState(name=fname, lang=lang, lines=lines, hdr=hdr, locals=renameable, marks=marks, **common))
     else:
         fs = (seeds.dry_set if case["kind"] == "dry" else seeds.stringly_set)(lang, 103, case.get("nfiles", 2))
         for name, text in fs.items():
@@ -338,7 +344,8 @@ def edits(draw, nfiles, lang, units, can_rename):
 @st.composite
 def cases(draw):
     kind = draw(st.sampled_from(["single"] * 6 + ["dry", "dry", "stringly"]))
-    layout = {"crlf": draw(st.integers(0, 5)) == 0, "bom": draw(st.integers(0, 11)) == 0, "no_final_nl": draw(st.integers(0, 4)) == 0}
+    layout = {"crlf": draw(st.integers(0, 5)) == 0, "bom": draw(st.integers(0, 11)) == 0, "no_final_nl": draw(st.integers(0, 4)) == 0,
+              "script": draw(st.integers(0, 5)) == 0}
     if kind == "single":
         lang = draw(st.sampled_from(LANGS))
         n = draw(st.integers(2, 4))
